@@ -22,6 +22,7 @@ import (
 	"os"
 	"os/exec"
 	"path/filepath"
+	"reflect"
 	"regexp"
 	"runtime"
 	"runtime/pprof"
@@ -68,7 +69,8 @@ type concScenario struct {
 	CloseDelay int    `json:"close_delay_us"`
 	HoldReader bool   `json:"hold_reader_across_close"`
 	Perturb    int    `json:"perturb_permille"`
-	SlowPersMS int    `json:"slow_persist_ms"` // pipclose: keep the persister behind the callers
+	SlowPersMS int    `json:"slow_persist_ms"`  // pipclose: keep the persister behind the callers
+	Acquirers  int    `json:"reader_acquirers"` // goroutines that only do Writer.Reader()+check+Close
 }
 
 type concResult struct {
@@ -83,6 +85,7 @@ type concResult struct {
 	Searches   int          `json:"searches"`
 	StoredLoad int          `json:"stored_loads"`
 	ReaderGets int          `json:"reader_gets"`
+	LifeChecks int          `json:"open_reader_segment_checks"`
 	StatsN     int          `json:"stats_calls"`
 	Merges     int          `json:"merge_intros"`
 	Persists   int          `json:"persist_rounds"`
@@ -103,9 +106,9 @@ func runConc(o Opts) error {
 	w.Samples = []interface{}{} // never `null` in stats.json, also when every scenario fails its oracle
 	defer w.Close()
 	rng := rand.New(rand.NewSource(o.Seed))
-	nRace, nTrace, nPip := 6, 5, 4
+	nRace, nTrace, nPip, nLife := 6, 5, 4, 3
 	if o.Thorough() {
-		nRace, nTrace, nPip = 100, 50, 50
+		nRace, nTrace, nPip, nLife = 100, 50, 50, 40
 	}
 	var scs []concScenario
 	mk := func(kind string) concScenario {
@@ -129,18 +132,22 @@ func runConc(o Opts) error {
 		if rng.Intn(3) == 0 {
 			sc.CloseDelay = 0
 		}
+		sc.Acquirers = rng.Intn(4)
 		sc.Path = filepath.Join(o.Out, fmt.Sprintf("sc_%d", k))
 		return sc
 	}
 	if len(o.Args) >= 2 && o.Args[0] == "only" { // debugging aid: harness conc ... only pipclose
 		switch o.Args[1] {
 		case "race":
-			nTrace, nPip = 0, 0
+			nTrace, nPip, nLife = 0, 0, 0
 		case "trace":
-			nRace, nPip = 0, 0
+			nRace, nPip, nLife = 0, 0, 0
 		case "pipclose":
-			nRace, nTrace = 0, 0
+			nRace, nTrace, nLife = 0, 0, 0
 			nPip *= 3
+		case "lifetime":
+			nRace, nTrace, nPip = 0, 0, 0
+			nLife *= 3
 		}
 	}
 	for i := 0; i < nRace; i++ {
@@ -154,6 +161,16 @@ func runConc(o Opts) error {
 		if sc.Batches > 4 {
 			sc.Batches = 4
 		}
+		scs = append(scs, sc)
+	}
+	for i := 0; i < nLife; i++ {
+		// reader acquisition against frequent root replacement: an OPEN reader must never contain
+		// a segment whose handle has been released (reference hand-off of the root)
+		sc := mk("lifetime")
+		sc.Unsafe, sc.Batchers, sc.Batches, sc.DocsPer = true, 2, 40+rng.Intn(40), 1
+		sc.Searchers, sc.Shared, sc.Acquirers, sc.HoldReader = 1, 2, 16, false
+		sc.NapMS, sc.NapUnder, sc.SmallMerge = 0, 1000, true
+		sc.Perturb = 20 + rng.Intn(60)
 		scs = append(scs, sc)
 	}
 	for i := 0; i < nPip; i++ {
@@ -218,6 +235,8 @@ func runConc(o Opts) error {
 		w.Count("searches", res.Searches)
 		w.Count("stored_field_loads", res.StoredLoad)
 		w.Count("reader_acquisitions", res.ReaderGets)
+		w.Count("open_reader_segment_checks", res.LifeChecks)
+		w.OracleEval(res.LifeChecks)
 		w.Count("stats_calls", res.StatsN)
 		w.Count("merge_introductions", res.Merges)
 		w.Count("persist_rounds", res.Persists)
@@ -397,12 +416,70 @@ type concEnv struct {
 	rngP         uint64 // ... by the persister goroutine
 	rngM         uint64 // ... by the merger goroutine
 	armed        int32  // pipclose: fire Close at the next Count() inside introducePersist
+	probMu       sync.Mutex
+	problems     []string
+	tracks       sync.Map // *segment.Data -> *concTrack (Directory.Load -> plugin.Load)
 	closeNow     chan struct{}
 	closeStarted chan struct{} // closed by the CloseStart event
 	pipFired     int32
 	merges       int64
 	persists     int64
 	chill        atomic.Value // *index.Writer seen through EventCallback
+}
+
+func (e *concEnv) problem(s string) {
+	e.probMu.Lock()
+	if len(e.problems) < 20 {
+		e.problems = append(e.problems, s)
+	}
+	e.probMu.Unlock()
+}
+
+// concTrack wraps the io.Closer of a loaded segment: the index calls Close when the last
+// reference on the segment is dropped (closeOnLastRefCounter).
+type concTrack struct {
+	inner  io.Closer
+	id     uint64
+	closed int32
+	e      *concEnv
+}
+
+func (t *concTrack) Close() error {
+	n := atomic.AddInt32(&t.closed, 1)
+	if n > 1 {
+		t.e.problem(fmt.Sprintf("segment-handle-closed-twice: the handle of segment %d was released %d times", t.id, n))
+		return nil
+	}
+	if t.inner != nil {
+		return t.inner.Close()
+	}
+	return nil
+}
+
+// concReleased describes the first segment of an OPEN reader whose handle has been released.
+func concReleased(snap *index.Snapshot) string {
+	for _, ss := range snap.Segments() {
+		g, ok := ss.(interface{ Segment() segment.Segment })
+		if !ok {
+			continue
+		}
+		w := reflect.ValueOf(g.Segment())
+		if w.Kind() != reflect.Ptr || w.IsNil() || w.Elem().Kind() != reflect.Struct {
+			continue
+		}
+		f := w.Elem().FieldByName("Segment") // segmentWrapper embeds segment.Segment
+		if !f.IsValid() || !f.CanInterface() {
+			continue
+		}
+		cs, ok := f.Interface().(*concSeg)
+		if !ok || cs.tc == nil {
+			continue
+		}
+		if n := atomic.LoadInt32(&cs.tc.closed); n != 0 {
+			return fmt.Sprintf("segment %d released %d time(s)", ss.ID(), n)
+		}
+	}
+	return ""
 }
 
 // role of the calling goroutine, from its stack
@@ -545,6 +622,10 @@ func (d *concDir) Load(kind string, id uint64) (*segment.Data, io.Closer, error)
 	data, c, err := d.inner.Load(kind, id)
 	if err == nil && kind == index.ItemKindSegment {
 		d.e.rec(role, "load-seg")
+		t := &concTrack{inner: c, id: id, e: d.e}
+		d.e.tracks.Store(data, t)
+		d.e.perturb(role)
+		return data, t, nil
 	}
 	d.e.perturb(role)
 	return data, c, err
@@ -603,7 +684,14 @@ func (d *concDir) Unlock() error {
 
 type concSeg struct {
 	segment.Segment
-	e *concEnv
+	e  *concEnv
+	tc *concTrack // handle of the backing item (nil for segments built in memory)
+}
+
+func (s *concSeg) checkUse(op string) {
+	if s.tc != nil && atomic.LoadInt32(&s.tc.closed) != 0 {
+		s.e.problem(fmt.Sprintf("use-of-released-segment: %s on segment %d after its handle was released", op, s.tc.id))
+	}
 }
 
 func (s *concSeg) Count() uint64 {
@@ -626,14 +714,17 @@ func (s *concSeg) Count() uint64 {
 func (s *concSeg) DocsMatchingTerms(t []segment.Term) (*roaring.Bitmap, error) {
 	role, _ := concRole()
 	s.e.perturb(role)
+	s.checkUse("DocsMatchingTerms")
 	return s.Segment.DocsMatchingTerms(t)
 }
 func (s *concSeg) Dictionary(field string) (segment.Dictionary, error) {
 	s.e.perturb("U")
+	s.checkUse("Dictionary")
 	return s.Segment.Dictionary(field)
 }
 func (s *concSeg) VisitStoredFields(num uint64, v segment.StoredFieldVisitor) error {
 	s.e.perturb("U")
+	s.checkUse("VisitStoredFields")
 	return s.Segment.VisitStoredFields(num, v)
 }
 
@@ -672,7 +763,11 @@ func (e *concEnv) plugin(v2 bool) *index.SegmentPlugin {
 			if err != nil {
 				return s, err
 			}
-			return &concSeg{Segment: s, e: e}, nil
+			cs := &concSeg{Segment: s, e: e}
+			if t, ok := e.tracks.LoadAndDelete(d); ok {
+				cs.tc = t.(*concTrack)
+			}
+			return cs, nil
 		},
 		Merge: func(segs []segment.Segment, drops []*roaring.Bitmap, mergeBufferSize int) segment.Merger {
 			role, _ := concRole()
@@ -711,10 +806,10 @@ func concChild(scFile string) error {
 	}
 	e := &concEnv{sc: sc, record: sc.Kind == "trace", rngI: uint64(sc.Seed) ^ 1, rngP: uint64(sc.Seed) ^ 2, rngM: uint64(sc.Seed) ^ 3,
 		closeNow: make(chan struct{}, 1), closeStarted: make(chan struct{})}
-	var problemsMu sync.Mutex
 	writeRes := func() {
-		problemsMu.Lock()
-		defer problemsMu.Unlock()
+		e.probMu.Lock()
+		defer e.probMu.Unlock()
+		res.Problems = append([]string(nil), e.problems...)
 		res.WallMS = time.Since(t0).Milliseconds()
 		res.PipFired = atomic.LoadInt32(&e.pipFired) == 1
 		b, _ := json.Marshal(res)
@@ -787,7 +882,7 @@ func concChild(scFile string) error {
 	cfg := mkConfig()
 	writer, err := bluge.OpenWriter(cfg)
 	if err != nil {
-		res.Problems = append(res.Problems, "api-error: OpenWriter: "+err.Error())
+		e.problem("api-error: OpenWriter: " + err.Error())
 		res.Done = true
 		writeRes()
 		return nil
@@ -823,13 +918,7 @@ func concChild(scFile string) error {
 			AddField(bluge.NewKeywordField("v", id).StoreValue())
 	}
 
-	problem := func(s string) {
-		problemsMu.Lock()
-		if len(res.Problems) < 20 {
-			res.Problems = append(res.Problems, s)
-		}
-		problemsMu.Unlock()
-	}
+	problem := e.problem
 	introduced := make([]int32, sc.Batchers) // batches whose Batch() returned nil
 	acked := make([]int32, sc.Batchers)      // highest k+1 acknowledged as persisted (contiguous by order of persistence)
 	var searches, stored, readerGets, statsN int64
@@ -898,10 +987,57 @@ func concChild(scFile string) error {
 	var callers sync.WaitGroup // goroutines calling the Writer API (Batch, Reader, Stats)
 	var readers sync.WaitGroup // goroutines that only search on readers they already hold
 	stopSearch := make(chan struct{})
+	var batchers sync.WaitGroup
+	batchDone := make(chan struct{})
+	var lifeChecks int64
+	for a := 0; a < sc.Acquirers; a++ {
+		callers.Add(1)
+		go func(a int) {
+			defer callers.Done()
+			for n := 0; ; n++ {
+				select {
+				case <-batchDone:
+					return
+				default:
+				}
+				c, ok := e.chill.Load().(*index.Writer)
+				if !ok || c == nil {
+					runtime.Gosched()
+					continue
+				}
+				snap, err := c.Reader()
+				if err != nil || snap == nil {
+					problem("api-error: index.Writer.Reader failed")
+					return
+				}
+				atomic.AddInt64(&readerGets, 1)
+				if msg := concReleased(snap); msg != "" {
+					problem("reader-holds-released-segment: a reader just handed out by Writer.Reader contains " + msg)
+					_ = snap.Close()
+					return
+				}
+				if n%8 == a%8 {
+					if _, err := snap.Count(); err != nil {
+						problem("api-error: Snapshot.Count: " + err.Error())
+					}
+					runtime.Gosched()
+					if msg := concReleased(snap); msg != "" {
+						problem("reader-holds-released-segment: a reader that is still open contains " + msg)
+						_ = snap.Close()
+						return
+					}
+				}
+				atomic.AddInt64(&lifeChecks, 1)
+				_ = snap.Close()
+			}
+		}(a)
+	}
 	for g := 0; g < sc.Batchers; g++ {
 		callers.Add(1)
+		batchers.Add(1)
 		go func(g int) {
 			defer callers.Done()
+			defer batchers.Done()
 			lr := rand.New(rand.NewSource(sc.Seed + int64(g)*7919))
 			for k, p := range plans[g] {
 				b := bluge.NewBatch()
@@ -1016,7 +1152,18 @@ func concChild(scFile string) error {
 			}
 		}
 	}
+	go func() { batchers.Wait(); close(batchDone) }()
 	callers.Wait() // every caller of the Writer API has returned
+	// quiescent: the root must still hold every one of its segments
+	if c, ok := e.chill.Load().(*index.Writer); ok && c != nil {
+		if snap, err := c.Reader(); err == nil && snap != nil {
+			if msg := concReleased(snap); msg != "" {
+				problem("reader-holds-released-segment: after all callers returned the root contains " + msg)
+			}
+			atomic.AddInt64(&lifeChecks, 1)
+			_ = snap.Close()
+		}
+	}
 	res.Phase1MS = time.Since(t0).Milliseconds()
 
 	// in-memory directories cannot be re-opened: take the final content through a reader now
@@ -1164,6 +1311,7 @@ func concChild(scFile string) error {
 	res.Searches = int(atomic.LoadInt64(&searches))
 	res.StoredLoad = int(atomic.LoadInt64(&stored))
 	res.ReaderGets = int(atomic.LoadInt64(&readerGets))
+	res.LifeChecks = int(atomic.LoadInt64(&lifeChecks))
 	res.StatsN = int(atomic.LoadInt64(&statsN))
 	res.Merges = int(atomic.LoadInt64(&e.merges))
 	res.Persists = int(atomic.LoadInt64(&e.persists))
